@@ -163,6 +163,7 @@ def keywords : List Bytes := [
   [0x63, 0x6f, 0x70, 0x72, 0x6f, 0x63],     -- coproc
   [0x64, 0x6f],                             -- do
   [0x64, 0x6f, 0x6e, 0x65],                 -- done
+  [0x65, 0x6c, 0x69, 0x66],                 -- elif
   [0x65, 0x6c, 0x73, 0x65],                 -- else
   [0x65, 0x73, 0x61, 0x63],                 -- esac
   [0x66, 0x69],                             -- fi
